@@ -25,6 +25,7 @@ import time
 from pathlib import Path
 
 from .common import Ctx
+from . import sched as S
 from .c03 import SPACES, apply_op
 
 DRIVERS = ["drv_db"]
@@ -92,13 +93,25 @@ def build_state(dbfile, c):
         ids = r.sample([(b3 << 24) | b0 for b0 in range(1, 256)], n)
         for j, i in enumerate(ids):
             m.set_id(i, f"bulk{i}", atime=base + im.timedelta(seconds=200 + j))
+    b24 = c.get("bulk24")
+    if b24:
+        b2, sd, n = b24
+        r = random.Random(sd)
+        ids = r.sample(range((b2 << 16) + 1, (b2 << 16) + 65536), n)
+        con = m.conn
+        con.execute("BEGIN")
+        con.executemany("INSERT INTO ids_24bit (id, description, atime) VALUES (?, ?, ?)",
+                        [(i, f"bulk{i}", (base + im.timedelta(seconds=300 + j)).isoformat()) for j, i in enumerate(ids)])
+        con.execute("COMMIT")
     m.close()
 
 
 def run_op(dbfile, c, die_before=None, die_after=False):
     """runs the operation in THIS process; returns (result, statements). With die_before=k the process exits before statement k."""
     im = _im()
-    im.secrets = ScriptedSecrets(c.get("seed", 1), c.get("force_draws"))
+    # clock and randomness are functions of the case only: identical in the dry run and in every crash run
+    S.install_fakes()
+    S.set_current(c.get("seed", 1), 1, 0, 0)
     m = im.IDManager(dbfile, max_ids_per_subspace=c.get("max_ids", 1024))
     stmts = []
 
@@ -200,12 +213,12 @@ def check_case(ctx: Ctx, c: dict):
             got = full_dump(dbk)
             ctx.count("crash-points")
             ctx.count("crash-before:" + (kinds[k] if k < n else "RETURN"))
-            allowed = [strip_times(pre), strip_times(post)]
+            allowed = [pre, post]
             inter = None
-            if c["op"][0] == "get":
+            if c["op"][0] == "get" and _large_path(c):
                 # pre-state after the operation's own completed clean-ups: rows of pre that survive, nothing new
                 inter = True
-            g = strip_times(got)
+            g = got
             if g not in allowed:
                 ok = False
                 if inter:
@@ -216,7 +229,7 @@ def check_case(ctx: Ctx, c: dict):
                 if not ok:
                     ctx.violation("after the crash the database holds neither the complete effect of the operation nor none of it", case,
                                   {"crash_before_statement": k, "of": n, "statement": kinds[k] if k < n else "RETURN",
-                                   "diff_vs_pre": _diff(strip_times(pre), g), "diff_vs_post": _diff(strip_times(post), g)}, key="partial-effect")
+                                   "diff_vs_pre": _diff(pre, g), "diff_vs_post": _diff(post, g)}, key="partial-effect")
             elif g == allowed[0]:
                 ctx.count("state:pre")
             else:
@@ -240,11 +253,20 @@ def _diff(a, b):
     return out
 
 
+def _large_path(c):
+    im = _im()
+    op = c["op"]
+    size = im.IDSpace(*SPACES[op[2]]).subspace_size(im.IDSubspace(op[3], op[4]))
+    return size > min(1024, c.get("max_ids", 1024))
+
+
 def _is_pre_after_cleanups(c, pre, got):
     im = _im()
     op = c["op"]
     sp = im.IDSpace(*SPACES[op[2]])
     sub = im.IDSubspace(op[3], op[4])
+    size = sp.subspace_size(sub)
+    targets = [min(int(size * f), c.get("max_ids", 1024)) for f in (0.75, 0.6, 0.5)]
     table = "ids_" + str(sp)
     for k in pre:
         if k != table and pre[k] != got[k]:
@@ -256,6 +278,8 @@ def _is_pre_after_cleanups(c, pre, got):
     if not all(sp.contains_and_in_subspace(r[0], sub) for r in removed):
         return False
     kept_in = [r for r in g if sp.contains_and_in_subspace(r[0], sub)]
+    if removed and len(kept_in) not in targets:
+        return False
     if removed and kept_in and max(r[2] for r in removed) > min(r[2] for r in kept_in):
         return False
     return True
@@ -294,6 +318,12 @@ def cases(ctx: Ctx):
     for n, max_ids in [(255, 1024), (255, 100), (253, 50), (255, 10), (240, 3)]:
         yield dict(k="crash", fill=f"dense16-{n}", op=["get", "N", "16bit", 1, 2], max_ids=max_ids, seed=rng.randrange(1 << 20),
                    prefill=[[5, "A"]], bulk=["16bit", 1, rng.randrange(1 << 20), n])
+    # many rows: explicit clean-ups that remove far more than a few hundred rows at once
+    for (rows, mx) in [(1300, 300), (700, 200)]:
+        yield dict(k="crash", fill=f"big24-{rows}", op=["cleanup", "24bit", 3, 4, mx], seed=rng.randrange(1 << 20), prefill=[[5, "A"]],
+                   bulk24=[3, rng.randrange(1 << 20), rows])
+    yield dict(k="crash", fill="big24-1100", op=["get", "N", "24bit", 3, 4], max_ids=400, seed=rng.randrange(1 << 20), prefill=[[5, "A"]],
+               bulk24=[3, rng.randrange(1 << 20), 1100], ks=[0, 1, 2, 3])
     if not ctx.quick:
         for _ in range(20):
             fname = rng.choice(list(fills))
